@@ -1324,7 +1324,7 @@ def bounded_texts(tree, txts):
     """Keep re's backtracking bounded: shorter / fewer texts for nested repetition, structure-only for a large counted
     repetition over another quantifier (2^n for a failing text). A timeout is never a verdict, so this only saves time."""
     depth = unbounded_depth(tree)
-    if max_bound(tree) >= 16 and quantifier_depth(tree) >= 2:
+    if max_bound(tree) >= 16 and (quantifier_depth(tree) >= 2 or any(n[0] == 'alt' for n in walk(tree))):
         return ['']
     if depth >= 2:
         txts = list(dict.fromkeys(t[:9] for t in txts))[:14]
